@@ -15,6 +15,18 @@ CLAIMED = {
  "C18": ("property-based testing: three encoders vs. reference encoder/decoder model, canonical-text oracle, truncation/corruption prefix oracle",
          "Generated-input exploration over typed argument lists in both byte orders through the harness encoder, payload_from_args and the serde Serializer; decode agreement (type info, raw bytes), canonical text (floats must parse back bit-exactly) and prefix-decoding of truncated/corrupted payloads.",
          "trusted: String::from_utf8_lossy, encoding_rs WINDOWS_1252, Rust float parsing", "4/C18"),
+ "C05": ("property-based testing: history invariant over generated messy multi-ECU traces (output = input except lifecycle, ids valid)",
+         "Generated-input exploration of the lifecycle detector with reboots, resumes, buffering delays, bad timestamps, control requests, non-monotonic reception, pre-filled and rendez-vous paced input and pre-populated tables; every forwarded message is compared with its input and its id resolved in the final table.",
+         "trusted: evmap; merges are observed indirectly (ids allocated vs delivered)", "4/C05"),
+ "C06": ("property-based testing: lookup of every delivered message's lifecycle at the delivery point, same thread and cross-thread hand-shake, consumer thread behind bounded channels",
+         "Generated-input exploration; the oracle runs inside the outflow closure (and in a consumer thread) for every delivery of every generated stream.",
+         "trusted: evmap memory ordering; interleavings are those induced by hand-shake, pacing and channel capacities (0/1/8)", "4/C06"),
+ "C07": ("property-based testing: table/histogram consistency invariant and listing validity predicate over generated messy traces",
+         "Generated-input exploration incl. streams with >20 lifecycles, late merges and crossing resume estimates; final table vs delivered ids, listing must be producible, a permutation, resume-after-origin and start-ordered without resumes.",
+         "trusted: hook Lifecycle::resume_origin_id (feature adlt_verif) reports the private resume link", "4/C07"),
+ "C08": ("property-based testing: generator ground truth (boots) vs detected lifecycles on clean traces",
+         "Generated-input exploration of cleanly separated power cycles (1..4 ECUs x 1..6 boots, any order within a boot, delays 0..120 s); exact equality of partition, start, end and counts with the generator's ground truth.",
+         "domain: next boot starts >= 1 ms after the last reception of the previous boot (DESIGN 4/C08 domain note)", "4/C08"),
 }
 PENDING = {}
 def main():
